@@ -80,7 +80,14 @@ prop("C20",
                  "likewise wherever it is proportional to that sum (2-D data, max ring difference 0); the driver "
                  "ML_estimate_component_based_normalisation must run all its outer iterations, write parseable efficiencies of the "
                  "physical dimensions and report non-increasing KL values over its efficiency sweeps (2-D data).  Detection validated "
-                 "on planted mutations (see the builder report)"),
+                 "on 12 planted mutations, each caught: fan wrap-around bound in FanProjData::is_in_data (fan:pair_not_representable), "
+                 "partner efficiency taken from the wrong ring in iterate_efficiencies (fixed_point:efficiencies_exact), wrong modulo in "
+                 "the version without model (fixed_point:efficiencies_without_model_*), gap skip '>' for '>=' in make_fan_data (crash) "
+                 "and in set_fan_data_add_gaps (roundtrip:gap_value), compressed max ring difference off by one block (crash / "
+                 "assert), mirrored detector off by one in apply_geo_norm (apply:geo), un-mirrored ring in make_geo_data "
+                 "(fixed_point:geo_exact), 2-D mirrored class index (det2d:fixed_point_geo_exact, det2d:apply_geo), block index "
+                 "(apply:block), KL term of empty bins dropped (kl:stir_KL_ascends_2D_data, det2d:kl_iterate_efficiencies_ascends, "
+                 "driver:kl_report_ascends), driver KL threshold max/10 (driver:kl_report_ascends)"),
      level_note=("trusted: the 150-line union-find orbit model and the float64 KL in harness/c20_mlnorm.cxx, and C01's subject "
                  "get_bin_for_det_pos_pair / get_det_pair_for_bin as the geometry's pair<->bin map.  STIR's KL(FanProjData) counts "
                  "in-plane LORs twice and oblique LORs once, so it is not proportional to the KL distance when oblique segments are "
